@@ -68,6 +68,8 @@ def cases(tier, seed):
     for ln in (0, 1):
         for ft in ('single_frame', 'all_frame', 'no_frame'):
             out.append({'k': 'cell', 'line': ln, 'ft': ft})
+    for ft in ('single_frame', 'all_frame', 'no_frame'):
+        out.append({'k': 'caller-cell', 'ft': ft})
     # attaching through the public entry point deep.start(): what the application's own logging set-up produces with and without it
     for setup in ATTACH_SETUPS:
         for order in ('configure-then-attach', 'attach-then-configure'):
@@ -483,6 +485,76 @@ def main():
 '''
 
 
+CALLER_CELL_SRC = '''
+HOOK = []
+def callee(n):
+    m = n + 1
+    return m
+def main():
+    count = 0
+    def bump():
+        nonlocal count
+        count += 1
+    HOOK.append(bump)
+    a = callee(1)
+    b = a + 1
+    c = b + 1
+    del HOOK[:]
+    return count
+'''
+
+
+def caller_cell_case(ctx, desc):
+    """The tracepoint is in callee(); main() - its caller - owns `count`, written by another thread only. The agent reads the variables of
+    every frame of the stack when it collects; python then writes main()'s variables back from that mapping after each later trace event of
+    main(). While the agent handles such an event (it has nothing to do there) the other thread writes: at every point where the agent
+    reads the clock (the seam; creating a context also asks the system for random bytes, which lets other threads run)."""
+    from deep.api.tracepoint.trigger import build_trigger
+    from ..drive import run_installed
+    ns, path = rig.load_program('c01callercell', CALLER_CELL_SRC)
+    line = CALLER_CELL_SRC.split('\n').index('    m = n + 1') + 1
+    bumps = []
+    state = {'armed': False}
+
+    class Push(rig.CapturePush):
+        def push_snapshot(self, snap):
+            state['armed'] = True         # the hit in callee() is done: from now on every clock read of the agent lets the other thread in
+            return rig.CapturePush.push_snapshot(self, snap)
+    agent = rig.Agent(plugins=[], push=Push())
+    agent.install([build_trigger('t', 'c01callercell.py', line, {'fire_count': '1', 'fire_period': '0', 'frame_type': desc['ft']}, [], [])])
+    with rig.VirtualClock() as clock:
+        real = clock.time_ns
+
+        def time_ns():
+            if state['armed'] and ns['HOOK'] and threading.current_thread().name != 'host-bumper' and not state.get('in'):
+                state['in'] = True        # (starting the thread is traced code too)
+                try:
+                    t = threading.Thread(target=ns['HOOK'][0], name='host-bumper')
+                    t.start()
+                    t.join()
+                    bumps.append(1)
+                finally:
+                    state['in'] = False
+            return real()
+        import deep.processor.context.trigger_context as TC
+        saved = TC.time_ns
+        TC.time_ns = time_ns
+        try:
+            run = run_installed(agent.handler, ns['main'])
+        finally:
+            TC.time_ns = saved
+    ctx.case()
+    ctx.nt(('caller-cell', desc['ft']))
+    ctx.outcome(('caller-cell', desc['ft'], len(bumps), run.result))
+    if run.exc is not None:
+        ctx.violation('C01/cell/program-raised', f'{run.exc!r}', desc)
+    elif len(agent.snapshots) != 1:
+        ctx.violation('C01/cell/no-hit', f'{len(agent.snapshots)} snapshots', desc)
+    elif run.result != len(bumps):
+        ctx.violation('C01/update-by-another-thread-lost/caller-frame', f'main() owns count = 0; after a hit in callee() another thread added 1 to it {len(bumps)} time(s), each time '
+                      f'while the agent handled an event of main() it has no tracepoint for: main() returns {run.result}', desc)
+
+
 def cell_case(ctx, desc):
     """main() owns `count`; bump() - run by another thread - is its only writer. While the agent handles a hit in main() (its collection
     takes a while), the other thread bumps the counter and is done before the agent returns. The update must not be lost: python writes
@@ -665,6 +737,8 @@ def run_case(ctx, desc):
         return attach_case(ctx, desc)
     if desc['k'] == 'cell':
         return cell_case(ctx, desc)
+    if desc['k'] == 'caller-cell':
+        return caller_cell_case(ctx, desc)
     name, loc = desc['prog'], tuple(desc['loc'])
     if name.startswith('g') and name[1:].isdigit():
         progs.generated()
